@@ -9,8 +9,7 @@ grouping rules it has to respect (C12).
 * `PExpr / PLoop` is the documented way such a stream is grouped: precedence climbing with the
   binding powers of `BinOp::precedence` / `is_left_associative` (regenerated in `Gen.Prec`; the same
   table pest's `PrattParser` is configured with in `exp_parser.rs`).
-* `needRight / needLeft` say where these rules REQUIRE parentheses; `noDefect` says the rendering
-  put them (at least) there.
+* `needRight / needLeft` say where these rules REQUIRE parentheses.
 Import-free.
 -/
 import Rooc.Exp
@@ -20,34 +19,27 @@ namespace Rooc.Display
 open Rooc
 
 inductive Item (α : Type) where
-  | atom (e : Exp α)                          -- a non-`BinOp` node, rendered by `Display` itself
-  | group (inner : Option BinOp) (e : Exp α)  -- `( … )` around `e` rendered in context `inner`
+  | atom (e : Exp α)      -- a non-`BinOp` node, rendered by `Display` itself
+  | group (e : Exp α)     -- `( … )` around the rendering of `e`
   | infix (op : BinOp)
   deriving Inhabited
 
 /-- the tree a leaf item (atom or parenthesised group) stands for -/
 def Item.tree? {α : Type} : Item α → Option (Exp α)
   | .atom e => some e
-  | .group _ e => some e
+  | .group e => some e
   | .infix _ => none
 
 section
 variable {α : Type}
 
 /-- Item-level twin of `showE` (same case structure). -/
-def items : Option BinOp → Exp α → List (Item α)
+def items : Option (BinOp × Bool) → Exp α → List (Item α)
   | ctx, .bin op lhs rhs =>
-    let il := items (some op) lhs
-    let ir := items (some op) rhs
+    let body := items (some (op, false)) lhs ++ [.infix op] ++ items (some (op, true)) rhs
     match ctx with
-    | none => il ++ [.infix op] ++ ir
-    | some last =>
-      if Gen.binPrec op < Gen.binPrec last then [.group none (.bin op lhs rhs)]
-      else match last with
-        | .sub =>
-          if isLeaf rhs then il ++ [.infix op] ++ ir
-          else il ++ [.infix op] ++ [.group (some op) rhs]
-        | _ => il ++ [.infix op] ++ ir
+    | none => body
+    | some (parent, isRhs) => if parensRule parent isRhs op then [.group (.bin op lhs rhs)] else body
   | _, e => [.atom e]
 
 /-! ### the documented grouping rules -/
@@ -72,7 +64,7 @@ end
 /-- the text of one item -/
 def renderItem (tok : α → String) : Item α → String
   | .atom e => showE tok none e
-  | .group c e => "(" ++ showE tok c e ++ ")"
+  | .group e => "(" ++ showE tok none e ++ ")"
   | .infix op => binOpStr op
 
 /-- the text of an item stream: items separated by single blanks -/
@@ -90,48 +82,16 @@ def needRight (o : BinOp) : Exp α → Bool
   | .bin o' _ _ => decide (lbp o' ≤ rbp o)
   | _ => false
 
-/-- does `Display` parenthesise the operand (as a whole) under parent `o`? -/
-def placed (o : BinOp) : Exp α → Bool
-  | .bin o' _ _ => decide (Gen.binPrec o' < Gen.binPrec o)
-  | _ => false
-
 /-- parentheses are REQUIRED around an operand on the given side of `o` -/
 def needSide (o : BinOp) (isRhs : Bool) (e : Exp α) : Bool := if isRhs then needRight o e else needLeft o e
 
-/-- The repaired rendering rule (fixes/C12-display-parens.diff): an operand is parenthesised exactly
-when the grouping rules need it, looking at the side it sits on. -/
-def itemsFixed : Option (BinOp × Bool) → Exp α → List (Item α)
-  | ctx, .bin op lhs rhs =>
-    let il := itemsFixed (some (op, false)) lhs
-    let ir := itemsFixed (some (op, true)) rhs
-    match ctx with
-    | none => il ++ [.infix op] ++ ir
-    | some (parent, isRhs) =>
-      if needSide parent isRhs (.bin op lhs rhs) then [.group none (.bin op lhs rhs)]
-      else il ++ [.infix op] ++ ir
-  | _, e => [.atom e]
-
-/-- every parenthesis the grouping rules need on the binary-operator skeleton of `e` is printed. -/
-def noDefect : Exp α → Bool
-  | .bin o l r =>
-    (!needLeft o l || placed o l) && (!needRight o r || placed o r) && noDefect l && noDefect r
-  | _ => true
-
-/-- the same for every expression nested anywhere inside (`abs{…}`, `min{…}`, operands of unary and
-logic nodes are rendered as expressions of their own). -/
-def noDefectDeep : Exp α → Bool
-  | .bin o l r =>
-    (!needLeft o l || placed o l) && (!needRight o r || placed o r) && noDefectDeep l && noDefectDeep r
-  | .num _ | .var _ => true
-  | .abs e | .not e | .un _ e => noDefectDeep e
-  | .min es | .max es | .and es | .or es => (es.map fun e => noDefectDeep e).all id
-  | .xor a b | .implies a b | .iff a b => noDefectDeep a && noDefectDeep b
-
-/-- the meaning-changing subset of the defects: a right operand at the parent's own precedence under
-`-` or `/` (`x - (y - z)`, `x - (y + z)`, `x / (y * z)`, `x / (y / z)`) printed without parentheses. -/
+/-- shapes whose meaning depends on the parentheses of a right operand: a `BinOp` at the parent's own
+precedence on the right of `-` or `/` (`x - (y - z)`, `x - (y + z)`, `x / (y * z)`, `x / (y / z)`).
+Used by the oracle to name the root cause should the rendering ever drop them again. -/
 def subDivDefect : Exp α → Bool
   | .bin o l r =>
-    ((o == .sub || o == .div) && needRight o r && !placed o r) || subDivDefect l || subDivDefect r
+    ((o == .sub || o == .div) && (match r with | .bin o' _ _ => Gen.binPrec o' == Gen.binPrec o | _ => false))
+      || subDivDefect l || subDivDefect r
   | .num _ | .var _ => false
   | .abs e | .not e | .un _ e => subDivDefect e
   | .min es | .max es | .and es | .or es => (es.map fun e => subDivDefect e).any id
